@@ -218,7 +218,150 @@ class Log(ast.NodeTransformer):
     generic_visit = Hoist.generic_visit
 
 
+# ---------------------------------------------------------------------
+# extract-helper: a run of top-level statements of a function moves into a
+# fresh module-level function; the run is replaced by a call.
+_BAD = (ast.Return, ast.Yield, ast.YieldFrom, ast.Await, ast.Global,
+        ast.Nonlocal, ast.AsyncFor, ast.AsyncWith, ast.Try, ast.Raise)
+
+
+def _stores(n):
+    out = set()
+    for x in ast.walk(n):
+        if isinstance(x, ast.Name) and isinstance(x.ctx, (ast.Store, ast.Del)):
+            out.add(x.id)
+        elif isinstance(x, (ast.FunctionDef, ast.AsyncFunctionDef,
+                            ast.ClassDef)):
+            out.add(x.name)
+        elif isinstance(x, ast.ExceptHandler) and x.name:
+            out.add(x.name)
+        elif isinstance(x, (ast.Import, ast.ImportFrom)):
+            for al in x.names:
+                out.add((al.asname or al.name).split('.')[0])
+    return out
+
+
+def _loads(n):
+    out = {x.id for x in ast.walk(n)
+           if isinstance(x, ast.Name) and isinstance(x.ctx, ast.Load)}
+    for x in ast.walk(n):
+        if isinstance(x, ast.AugAssign) and isinstance(x.target, ast.Name):
+            out.add(x.target.id)
+    return out
+
+
+def _loose_jump(st):
+    """break/continue not enclosed by a loop inside st"""
+    def rec(n, inloop):
+        if isinstance(n, (ast.Break, ast.Continue)) and not inloop:
+            return True
+        if isinstance(n, (ast.FunctionDef, ast.AsyncFunctionDef, ast.Lambda)):
+            return False
+        il = inloop or isinstance(n, (ast.For, ast.While))
+        return any(rec(c, il) for c in ast.iter_child_nodes(n))
+    return rec(st, False)
+
+
+def extract_helper(fn, uid):
+    """(new fn, helper def) or None.  Only top-level statements of fn; the
+    inputs are parameters or names bound by a top-level simple statement
+    before the run; outputs are the names the run binds that are read later."""
+    import copy
+    a = fn.args
+    params = [x.arg for x in a.posonlyargs + a.args + a.kwonlyargs]
+    if a.vararg:
+        params.append(a.vararg.arg)
+    if a.kwarg:
+        params.append(a.kwarg.arg)
+    body = fn.body
+    # names referenced from nested scopes anywhere in fn: leave them alone
+    nested_refs = set()
+    for n in ast.walk(fn):
+        if n is not fn and isinstance(n, (ast.FunctionDef,
+                                          ast.AsyncFunctionDef, ast.Lambda)):
+            nested_refs |= {x.id for x in ast.walk(n)
+                            if isinstance(x, ast.Name)}
+    all_stores = _stores(fn)
+    ok = [not any(isinstance(x, _BAD) for x in ast.walk(st)) and
+          not _loose_jump(st) and not (isinstance(st, ast.Expr) and
+                                       isinstance(st.value, ast.Constant))
+          for st in body]
+    best = None
+    n = len(body)
+    for i in range(n):
+        for j in range(i + 2, min(n, i + 6) + 1):
+            if not all(ok[i:j]):
+                break
+            if j == n and i == 0:
+                continue
+            run = body[i:j]
+            st_run = set().union(*[_stores(s) for s in run])
+            ld_run = set().union(*[_loads(s) for s in run])
+            if st_run & nested_refs:
+                continue
+            bound_before = set(params)
+            for s in body[:i]:
+                if isinstance(s, (ast.Assign, ast.AnnAssign, ast.AugAssign,
+                                  ast.Import, ast.ImportFrom,
+                                  ast.FunctionDef, ast.With, ast.For)):
+                    if isinstance(s, (ast.With, ast.For)):
+                        hdr = copy.copy(s)
+                        hdr.body = []
+                        hdr.orelse = []
+                        bound_before |= _stores(hdr)
+                    else:
+                        bound_before |= _stores(s)
+            ins = sorted(x for x in ld_run
+                         if x in all_stores or x in params)
+            # a name read by the run must be bound for sure, or be bound by
+            # the run itself first (approximated: bound somewhere in the run
+            # and not bound at all before it)
+            if any(x not in bound_before and x not in st_run for x in ins):
+                continue
+            ins = [x for x in ins if x in bound_before]
+            after = set().union(*[_loads(s) for s in body[j:]]) \
+                if j < n else set()
+            outs = sorted(x for x in st_run if x in after)
+            if any(isinstance(x, ast.Name) and isinstance(x.ctx, ast.Del)
+                   for s in run for x in ast.walk(s)):
+                continue
+            score = (j - i) * 10 - abs((i + j) / 2 - n / 2)
+            if best is None or score > best[0]:
+                best = (score, i, j, ins, outs)
+    if best is None:
+        return None
+    _, i, j, ins, outs = best
+    hname = f'_xh_{fn.name}_{uid}'
+    hbody = copy.deepcopy(body[i:j])
+    if outs:
+        rv = ast.Name(id=outs[0], ctx=ast.Load()) if len(outs) == 1 else \
+            ast.Tuple(elts=[ast.Name(id=o, ctx=ast.Load()) for o in outs],
+                      ctx=ast.Load())
+        hbody.append(ast.Return(value=rv))
+    helper = ast.FunctionDef(
+        name=hname, args=ast.arguments(
+            posonlyargs=[], args=[ast.arg(arg=x) for x in ins],
+            kwonlyargs=[], kw_defaults=[], defaults=[]),
+        body=hbody, decorator_list=[], type_params=[])
+    call = ast.Call(func=ast.Name(id=hname, ctx=ast.Load()),
+                    args=[ast.Name(id=x, ctx=ast.Load()) for x in ins],
+                    keywords=[])
+    if not outs:
+        rep = ast.Expr(value=call)
+    elif len(outs) == 1:
+        rep = ast.Assign(targets=[ast.Name(id=outs[0], ctx=ast.Store())],
+                         value=call)
+    else:
+        rep = ast.Assign(targets=[ast.Tuple(
+            elts=[ast.Name(id=o, ctx=ast.Store()) for o in outs],
+            ctx=ast.Store())], value=call)
+    new = copy.deepcopy(fn)
+    new.body[i:j] = [rep]
+    return new, helper
+
+
 MODE = 'rename'
+HELPERS = []
 
 
 def renamed_source(m, fnodes):
@@ -251,6 +394,13 @@ def renamed_source(m, fnodes):
             new = Early().visit(copy.deepcopy(fn))
         elif MODE == 'log':
             new = Log().generic_visit(copy.deepcopy(fn))
+        elif MODE == 'extract':
+            r = extract_helper(fn, len(HELPERS))
+            if r is None:
+                continue
+            new, helper = r
+            ast.fix_missing_locations(helper)
+            HELPERS.append(ast.unparse(helper))
         elif MODE == 'flip':
             new = FlipCmp().visit(copy.deepcopy(fn))
         elif MODE == 'swap':
@@ -270,7 +420,11 @@ def renamed_source(m, fnodes):
         if fn.decorator_list:
             start = min(d.lineno for d in fn.decorator_list) - 1
         lines[start:fn.end_lineno] = [text]
-    return ''.join(lines)
+    out = ''.join(lines)
+    if MODE == 'extract' and HELPERS:
+        out += '\n\n' + '\n\n\n'.join(HELPERS) + '\n'
+        HELPERS.clear()
+    return out
 
 
 def main(props):
@@ -318,8 +472,9 @@ def main(props):
         except model.AnalysisError as e:
             status = f'ANALYSIS-ERROR: {str(e)[:140]}'
             bad += 1
-        print(f'{prop}: renamed locals in {nfun} functions of '
-              f'{len(overlay)} modules -> {status}')
+        print(f'{prop}: mode={MODE} edited {nfun} functions of '
+              f'{len(overlay)} modules (helpers inlined back: '
+              f'{getattr(repo, "helpers_inlined", 0)}) -> {status}')
     return 1 if bad else 0
 
 
@@ -337,7 +492,7 @@ if __name__ == '__main__':
         MODE = 'noop'
         del sys.argv[1]
     elif sys.argv[1:2] and sys.argv[1] in ('--hoist', '--reorder', '--early',
-                                           '--log'):
+                                           '--log', '--extract'):
         MODE = sys.argv[1][2:]
         del sys.argv[1]
     ps = sys.argv[1:] or ['C%02d' % i for i in range(1, 21)]
